@@ -1247,6 +1247,10 @@ func (e *Exec) convert(st *State, v Term, from, to types.Type, at ast.Node) Term
 	if isInterface(to) {
 		return e.coerce(st, v, from, to)
 	}
+	// T(nil) for slice / pointer / interface types
+	if fb, ok := types.Unalias(from).Underlying().(*types.Basic); ok && fb.Kind() == types.UntypedNil {
+		return e.nilOf(to)
+	}
 	// named pointer / slice / struct conversions between identical underlying types
 	if e.sortOf(to) == v.Sort {
 		return v
